@@ -116,7 +116,7 @@ def memory_groups():
     G = []
 
     def g(name, props, harness, enforce, what, defines=(), **kw):
-        kw.setdefault('replay', harness in ('h_sp_reset', 'h_lock', 'h_share') and name in ('sp_reset', 'lock', 'share.into_empty'))
+        kw.setdefault('replay', name in ('sp_reset', 'lock', 'share.into_empty', 'share.occupied', 'weak_from', 'weak_from.occupied', 'lock.occupied', 'wp_reset', 'unique', 'get', 'up_reset'))
         G.append(Group('memory.' + name, props, 'P', S, harness, enforce=enforce, sources=src,
                        defines=list(defines), what=what, **kw))
     g('up_reset', ['C05', 'C16'], 'h_up_reset', 'cstl_unique_ptr_reset', 'unique reset: clear once on live memory, then free, pointer re-initialised')
@@ -158,7 +158,7 @@ def memory_groups():
     ids = json.load(open(os.path.join(VERIF, 'spec', 'stray_memory.json')))
     for i, eid in enumerate(ids, 1):
         # "ensures false": the call must not return; the only reachable end is abort()
-        G.append(Group('memory.stray.' + eid, ['C20'], 'P', S, 'h_stray', enforce=fn_of[eid], sources=src, solver='kissat',
+        G.append(Group('memory.stray.' + eid, ['C20'], 'P', S, 'h_stray', enforce=fn_of[eid], sources=src, solver='kissat', replay=True,
                        defines=['-DVF_STRAY=%d' % i], covers=['abort'], unwind=2,
                        what='stray (bitwise-copied) object in this argument position, any pointer value: %s never returns normally and writes nothing before aborting' % fn_of[eid]))
     G.append(Group('memory.same_block', ['C05'], 'P', S, 'h_same_block', sources=src, unwind=2, replay=True,
@@ -197,7 +197,7 @@ def array_groups():
         g('data' + fam, ['C14'], 'h_data', 'cstl_array_data_const', 'data: the start of the underlying buffer, NULL for an empty object [%s]' % ftxt, defines=['-DVF_G_reset'] + fd)
     names = ['alloc', 'set', 'release', 'data_const', 'at_const', 'slice', 'unslice', 'reset']
     for i, n in enumerate(names, 1):
-        G.append(Group('array.stray.' + n, ['C20'], 'P', S, 'h_stray', enforce='cstl_array_' + n, sources=src, solver='kissat',
+        G.append(Group('array.stray.' + n, ['C20'], 'P', S, 'h_stray', enforce='cstl_array_' + n, sources=src, solver='kissat', replay=True,
                        defines=['-DVF_STRAY=%d' % i], covers=['abort'], unwind=2,
                        what='stray (bitwise-copied) array object: cstl_array_%s never returns normally and writes nothing before aborting' % n))
     return G
